@@ -3,6 +3,7 @@
 #ifndef H_COMMON_H
 #define H_COMMON_H
 #include <math.h>
+#include <stdlib.h>
 #include <string.h>
 #include <tskit/tables.h>
 #include <tskit/trees.h>
